@@ -7,6 +7,7 @@ package digraph6 // import "gonum.org/v1/gonum/graph/encoding/digraph6"
 
 import (
 	"fmt"
+	"math"
 	"math/big"
 	"strings"
 
@@ -100,7 +101,9 @@ func bit6(b int64) byte {
 // behaves as the null graph.
 func IsValid(g Graph) bool {
 	n := int(numberOf(g))
-	if n < 0 {
+	if n < 0 || n > math.MaxInt32 {
+		// n*n below would overflow; no string can be long
+		// enough to hold that many edges anyway.
 		return false
 	}
 	size := (n*n + 5) / 6 // ceil(n^2 / 6)
